@@ -180,15 +180,15 @@ def kernel_lib(variant="plain"):
                 shim = os.path.join(d, "gomp_shim.o")
                 _run(["gcc", "-c", "-fPIC", "-O1", "-g", "-fsanitize=thread",
                       os.path.join(CSUP, "gomp_shim.c"), "-o", shim])
-                _run(["gcc", "-shared", "-o", tmp] + objs + [shim,
+                _run(["gcc", "-shared", "-Wl,-Bsymbolic", "-o", tmp] + objs + [shim,
                       "-fsanitize=thread", "-lpthread", "-lm"])
             elif variant == "sched":
                 rt = os.path.join(d, "vrt.o")
                 _run(["gcc", "-c", "-fPIC", "-O2", "-g",
                       os.path.join(CSUP, "vrt.c"), "-o", rt])
-                _run(["gcc", "-shared", "-o", tmp] + objs + [rt,
-                      "-Wl,--wrap=malloc,--wrap=calloc,--wrap=realloc,--wrap=free",
-                      "-lpthread", "-lm"])
+                _run(["gcc", "-shared", "-Wl,-Bsymbolic", "-o", tmp] + objs + [rt,
+                      "-Wl,--wrap=malloc,--wrap=calloc,--wrap=realloc,--wrap=free,--wrap=memset",
+                      "-lpthread", "-lm", "-ldl"])
             elif variant == "asan":
                 _run(["gcc", "-shared", "-fopenmp", "-fsanitize=address,undefined",
                       "-o", tmp] + objs + ["-lm"])
